@@ -18,7 +18,7 @@ from ..common import NCPU, rmtree, scratch, seed
 
 LAWS = ["NoClobber", "Converges", "NoStale", "ExitLaw", "RejectedWritesNothing"]
 PROPS = ["Confined", "NoClobberStep", "RejectedStep", "EveryCommandExits"]
-ALL = {"Docs": set(fshist.DOCS), "HookKinds": set(fshist.HOOKS), "Touches": {"u_top", "u_pkg", "u_models", "u_api", "sib"}}
+ALL = {"Docs": set(fshist.DOCS), "HookKinds": set(fshist.HOOKS), "MaxTouches": 99, "Touches": {"u_top", "u_flav", "u_pkg", "u_models", "u_api", "sib"}}
 METAS = ["none", "poetry", "pdm", "setup"]
 
 
@@ -32,7 +32,7 @@ def model_check(rep, d, quick: bool):
         rep.extra["tlc_law_violations"] = res.violated
     # emission run (histories with their predicted trees); smaller alphabet of hooks to keep the number of histories replayable
     cfg = tlc.write_cfg(d / "fs-emit.cfg", {"MaxCmds": 2, "Docs": set(fshist.DOCS), "HookKinds": {"ok"} if quick else set(fshist.HOOKS),
-                                            "Touches": ALL["Touches"], "EmitJson": True}, LAWS + ["Emit"])
+                                            "Touches": ALL["Touches"], "MaxTouches": 1 if quick else 2, "EmitJson": True}, LAWS + ["Emit"])
     res2 = tlc.run_tlc("FsHistoryMC.tla", cfg, workers=1, timeout=3000)
     rep.tlc(res2)
     return [p for p in res2.printed if isinstance(p, dict) and "hist" in p]
@@ -101,7 +101,7 @@ def replay_history(rep, case: dict, meta: str, d: Path, fresh_cache: dict, tid: 
         fresh = fresh_cache[fk]
         tree = gen.snapshot(sb.out, content=True)
         users = {}
-        for k in ("u_top", "u_pkg"):
+        for k in ("u_top", "u_flav", "u_pkg"):
             p = sb.userpath(k)
             rel = str(p.relative_to(sb.out))
             if ("work/out/" + rel) in before:
